@@ -289,6 +289,45 @@ Definition rotate_stmt1 (lg : bool) (s : stmt) : stmt :=
   | s => s
   end.
 
+(** the C statement tree that the printed assignment derives *)
+Definition cstmt_of_assignment (target value : expr) : cstmt :=
+  let ct := embed (rotate target) in
+  let plain := CSAssign AEq ct (embed (rotate value)) in
+  match value with
+  | Add l r =>
+      if expr_eqb l target then
+        if expr_eqb r (IntegerLiteral 1) then CSPostIncr ct else CSAssign AAddEq ct (embed (rotate r))
+      else plain
+  | Subtract l r =>
+      if expr_eqb l target then
+        if expr_eqb r (IntegerLiteral 1) then CSPostDecr ct else CSAssign ASubEq ct (embed (rotate r))
+      else plain
+  | Multiply l r =>
+      if expr_eqb l target then CSAssign AMulEq ct (embed (rotate r)) else plain
+  | _ => plain
+  end.
+
+Definition cstmt_of (s : stmt) : option cstmt :=
+  match s with
+  | Assignment t v => Some (cstmt_of_assignment t v)
+  | DeclarationAssignment (Declaration (Var x) t) v => Some (CSDeclInit t x (embed (rotate v)))
+  | Declaration (Var x) t => Some (CSDecl t x)
+  | Return v => Some (CSReturn (embed (rotate v)))
+  | SExpr e => Some (CSExpr (embed (rotate e)))
+  | _ => None
+  end.
+
+(** what the printed assignment assigns, after ISO C's definitional expansion of [op=], [++], [--]:
+    the sugar keeps the top node ([t op= r] evaluates [r] as a whole) *)
+Definition assigned_value (target value : expr) : cexpr :=
+  let ct := embed (rotate target) in
+  match value with
+  | Add l r => if expr_eqb l target then CBin OAdd ct (embed (rotate r)) else embed (rotate value)
+  | Subtract l r => if expr_eqb l target then CBin OSub ct (embed (rotate r)) else embed (rotate value)
+  | Multiply l r => if expr_eqb l target then CBin OMul ct (embed (rotate r)) else embed (rotate value)
+  | _ => embed (rotate value)
+  end.
+
 (** * Guards *)
 
 (** syntactic sort of an expression's VALUE: what the typing of the IR machine (spec/IRSem.v) and
@@ -330,6 +369,10 @@ Fixpoint wt_expr (e : expr) : bool :=
   | ArrayReallocate old _ n => is_Assignable old && wt_expr old && numeric n && wt_expr n
   end.
 
+(** the element type of an allocation is one of the typedef names (int32_t and double in practice:
+    spec/IRSem.v::elt_is_float rejects everything else) *)
+Definition is_base (t : ty) : bool := match base_name t with Some _ => true | None => false end.
+
 (** The minimal syntactic condition under which the printed text parses to [embed (rotate e)]:
     no operand printed without parentheses binds looser than its position allows. *)
 Definition loose (e : expr) : bool := level_of e <? LAdd.
@@ -346,12 +389,14 @@ Fixpoint prec_ok (e : expr) : bool :=
       (LRel <=? level_of l) && (LAdd <=? level_of r) && prec_ok l && prec_ok r
   | And l r | Or l r | Max l r | Min l r => prec_ok l && prec_ok r
   | BooleanToInteger x => prec_ok x
-  | ArrayAllocate _ n => negb (loose n) && negb (is_Multiply n) && prec_ok n
-  | ArrayReallocate old _ n => prec_ok old && negb (loose n) && negb (is_Multiply n) && prec_ok n
+  | ArrayAllocate t n => is_base t && negb (loose n) && negb (is_Multiply n) && prec_ok n
+  | ArrayReallocate old t n =>
+      is_base t && prec_ok old && negb (loose n) && negb (is_Multiply n) && prec_ok n
   end.
 
 (** [malloc(sizeof(T) * a * b)] parses as [(sizeof(T) * a) * b], a tree with no IR counterpart;
-    tensora never emits a product as an allocation size (sizes are variables or [n + 1]). *)
+    tensora never emits a product as an allocation size (sizes are variables or [n + 1]).  The
+    element type is a typedef name. *)
 Fixpoint alloc_ok (e : expr) : bool :=
   match e with
   | Var _ | IntegerLiteral _ | FloatLiteral _ | BooleanLiteral _ => true
@@ -359,8 +404,18 @@ Fixpoint alloc_ok (e : expr) : bool :=
   | ArrayIndex l r | Add l r | Subtract l r | Multiply l r
   | Equal l r | NotEqual l r | GreaterThan l r | LessThan l r | GreaterThanOrEqual l r
   | LessThanOrEqual l r | Max l r | Min l r | And l r | Or l r => alloc_ok l && alloc_ok r
-  | ArrayAllocate _ n => negb (is_Multiply n) && alloc_ok n
-  | ArrayReallocate old _ n => alloc_ok old && negb (is_Multiply n) && alloc_ok n
+  | ArrayAllocate t n => is_base t && negb (is_Multiply n) && alloc_ok n
+  | ArrayReallocate old t n => is_base t && alloc_ok old && negb (is_Multiply n) && alloc_ok n
+  end.
+
+Definition stmt_ok (s : stmt) : bool :=
+  match s with
+  | Assignment t v => is_Assignable t && prec_ok t && prec_ok v
+  | DeclarationAssignment (Declaration (Var _) _) v => prec_ok v
+  | Declaration (Var _) _ => true
+  | Return v => prec_ok v
+  | SExpr e => prec_ok e
+  | _ => false
   end.
 
 (** trees without the K-C06-1 patterns: no right operand of + * && || in the same chain class *)
